@@ -9,10 +9,10 @@ RULE = ("kernel inputs: all pairs of sorted arrays over a 4-letter alphabet up t
         "sweep with the hit at every landing offset; random clustered arrays with long duplicate runs; strided "
         "views for the intersect kernels; search targets below/inside/above with adversarial neighbours. "
         "Non-trivial = the kernel's answer is non-empty. Distinct by input hash.")
-TRUSTED = ["extraction (ExtrOcamlBasic only) + ocaml/driver.ml", "numpy array construction in harness/props/kernels.py",
+TRUSTED = ["extraction (ExtrOcamlBasic + Extract Inlined Constant rev => List.rev) + ocaml/driver.ml", "numpy array construction in harness/props/kernels.py",
            "strides are abstracted in the model (pointer = logical index); strided views are exercised on the implementation"]
 ASSUMPTIONS = ["inputs sorted; mask a run of contiguous high bits; masked value + delta < 2^64 for the adjacency kernels",
-               "array lengths below 2^63 (gallop fuel 66)"]
+               "array lengths below 2^62 (the bound of the theorems; gallop fuel 66)"]
 EXPLANATION = ("Per-kernel theorems model = set-theoretic spec (Props/C12.v); the check runs the real kernels, the "
                "extracted models and the extracted specs on the same inputs.")
 
